@@ -41,6 +41,15 @@ PolicySizesSane == \A p \in DOMAIN Pol : IsHardening(p) =>
     /\ \A n \in DOMAIN Pol[p].hostkey_sizes : Pol[p].hostkey_sizes[n].hostkey_size >= 256
     /\ \A n \in DOMAIN Pol[p].dh_modulus_sizes : Pol[p].dh_modulus_sizes[n] >= 2048
 
+\* the sizes a hardening policy prescribes are not sizes the tool itself rates as failures (keys and signing CAs: RSA below
+\* 2048 bits, elliptic-curve keys below 224 bits)
+IsRsaType(n) == StartsWith(n, "ssh-rsa") \/ StartsWith(n, "rsa-sha2-")
+MinBits(type) == IF IsRsaType(type) THEN 2048 ELSE 224
+PolicySizesNotFailing == \A p \in DOMAIN Pol : IsHardening(p) => \A n \in DOMAIN Pol[p].hostkey_sizes :
+    LET e == Pol[p].hostkey_sizes[n] IN
+    /\ e.hostkey_size >= MinBits(n)
+    /\ (("ca_key_type" \in DOMAIN e /\ e.ca_key_type # "") => e.ca_key_size >= MinBits(e.ca_key_type))
+
 \* --- documented shape: [versions] [failures] [warnings] [infos] -------------
 ShapeOk == \A db \in {Tables.db2, Tables.db1} : \A cat \in DOMAIN db : \A n \in DOMAIN db[cat] :
     /\ db[cat][n].shape_len \in 1..4 /\ db[cat][n].shape_ok
